@@ -39,13 +39,26 @@ SUITES = {
         props=["C13", "C14"],
     ),
     "market": dict(
-        mc=[dict(module="MC_Market", cfg="MC_Market.cfg", timeout=tiered(1500, 7200), workers=tiered(6, 14))],
+        mc=[dict(module="MC_Market", cfg=tiered("MC_Market_q1.cfg", "MC_Market_thorough.cfg"),
+                 timeout=tiered(1800, 6 * 3600), workers=tiered(6, 14)),
+            dict(module="MC_Market", cfg="MC_Market_q2.cfg", timeout=tiered(1800, 3600), workers=tiered(6, 14),
+                 may_be_dead=["TickStep"])],   # q2 explores two deals at a single epoch (no ticks)
         sim=dict(module="MC_Market", cfg="Sim_Market.cfg", num=tiered(100, 2000), depth=24),
         tour_cap=tiered(1500, 10 ** 9),
         driver="market",
         driver_args=lambda tier: ["--random", 150 if tier == "quick" else 5000, "--len", 50],
         trace=dict(module="Trace_Market", cfg_in="Trace_Market.cfg.in"),
         props=["C06", "C07", "C08", "C01", "C05"],
+    ),
+    "initd": dict(
+        mc=[dict(module="MC_Init", cfg=tiered("MC_Init.cfg", "MC_Init_thorough.cfg"),
+                 timeout=tiered(900, 5400), workers=tiered(4, 8))],
+        sim=dict(module="MC_Init", cfg="Sim_Init.cfg", num=tiered(30, 600), depth=14),
+        tour_cap=tiered(1200, 10 ** 9),
+        driver="initd",
+        driver_args=lambda tier: ["--random", 300 if tier == "quick" else 6000, "--len", 14],
+        trace=dict(module="Trace_Init", cfg_in="Trace_Init.cfg.in"),
+        props=["C20"],
     ),
 }
 
@@ -57,12 +70,13 @@ PROPS = {
     "C08": dict(suites=["market"], title="Deal lifecycle: unique publication, one timely activation by the provider"),
     "C13": dict(suites=["minerctl"], title="Control of a miner changes hands only by two-sided, delayed handover"),
     "C12": dict(suites=["multisig"], title="Multisig: spending needs a quorum of current signers, once, within the lock"),
+    "C20": dict(suites=["initd"], title="Actor identities are unique, stable and derived as specified"),
 }
 
 NOT_BUILT = "check not built yet in this round (work in progress; see DESIGN.md build order)"
 NOT_APPLICABLE = {p: NOT_BUILT for p in
                   ["C01", "C02", "C03", "C04", "C05", "C09", "C10", "C11",
-                   "C14", "C15", "C17", "C18", "C19", "C20"]}
+                   "C14", "C15", "C17", "C18", "C19"]}
 
 _MKT = ("Bounded exhaustive TLC model checking of spec/Market.tla with the REAL protocol constants (180-day minimum duration, 30-day cron interval; time jumps only between deal boundaries and scheduled cron epochs, so the state space is small and every behaviour is replayable 1:1): every interleaving of deposits, withdrawals, batch publication with invalid entries, both activation paths, settlement, sector termination and the per-epoch cron over <= 2 deals; formulas as invariants over state + event-derived ghosts and as action properties. Conformance: a transition tour of the model, TLC simulation behaviours and guided random schedules run on the real market actor with real miner actors as providers; every recorded step validated by TLC. ")
 LEVEL_TEXT = {
@@ -72,6 +86,7 @@ LEVEL_TEXT = {
     "C13": "Bounded exhaustive TLC model checking of spec/MinerControl.tla (all interleavings of the owner, worker and beneficiary hand-over protocols, withdrawals, the cron pending-worker step and epoch advances by owner, proposed owner, beneficiary, nominee and strangers; C13 formulas as action properties over a ghost that re-derives approvals from the accepted calls) + conformance: TLC-exported behaviours and random schedules run on a real miner actor created through the power actor; each recorded step is validated by TLC.",
     "C12": "Bounded exhaustive TLC model checking of spec/Multisig.tla (every interleaving of propose/approve/cancel by signers and outsiders with admin transactions and re-entrant self-calls executed inside the approving step, within small constants) + conformance: TLC-exported behaviours and random schedules run on the real multisig actor (created through init, inner sends really executed) and each recorded step is validated by TLC against the C12 formulas and the spec's transition function.",
     "C16": "Bounded exhaustive TLC model checking of spec/Paych.tla (all voucher/settle/collect interleavings within small constants, C16 formulas as invariants and action properties) + conformance: TLC-exported behaviours and random schedules are executed on the real paych actor and every recorded step is validated by TLC against the same formulas and the spec's transition relation.",
+    "C20": "Bounded exhaustive TLC model checking of spec/Init.tla (init.Exec/Exec4 creator-code matrix, EAM CreateExternal, CREATE/CREATE2 issued by contracts running nested programs with reverting frames, failing constructors, self-destruct and resurrection, auto-created accounts and placeholders, deployments landing on placeholders; the C20 formulas as action properties over (pre-state, call + observed creations, post-state), Keccak/RLP as an injective uninterpreted function) + conformance: a transition tour of the model, TLC simulation behaviours and guided random schedules run on the real init, EAM, EVM, multisig, paych, power/miner actors (contracts are real EVM bytecode interpreting the programs); every recorded step validated by TLC; the literal CREATE/CREATE2 address bytes are re-computed by the harness with its own RLP + Keccak-256 (formula AddrFormula).",
 }
 LEVEL_NOTE = {
     "default": "Trusted: verif_vm (native Runtime implementation derived from test_vm), the driver's abstract-call -> message mapping and state projection, TLC. Bounded: model constants in spec/MC_*.cfg; real traces cover only explored schedules.",
